@@ -74,7 +74,11 @@ def make_logits(parts, extra):
 def check_merge(ctx, parts, extra, tag):
     from pero_ocr.ocr_engine import line_ocr_engine as E
     logits = make_logits(parts, extra)
-    res = ctx.must("merge_raises", E.merge_transcriptions_and_logits, list(parts), [l.copy() for l in logits])
+    parts_in = list(parts)
+    logits_in = [l.copy() for l in logits]
+    res = ctx.must("merge_raises", E.merge_transcriptions_and_logits, parts_in, logits_in)
+    ctx.check(parts_in == list(parts) and all(np.array_equal(x, y) for x, y in zip(logits_in, logits)), "merge_modifies_its_input",
+              lambda: "parts=%r" % (parts,))
     text, merged = res
     cands = reference_merges(ctx, parts, E.find_best_overlap)
     desc = lambda: "parts=%r result=%r allowed=%r" % (parts, text, [(c[0], c[2]) for c in cands])
